@@ -209,6 +209,8 @@ def build_unit(name):
                     spec["contract"] = shared[a2]
                     spec["contract_file"] = "shared_contracts.vrs"
                     spec["contract_name"] = a2
+                elif d2 == "mono":
+                    spec["mono"] = tuple(a2.split())
                 elif d2 == "contract_pre":
                     # an additional precondition of this unit's PROOF of a shared contract (the assumed contract elsewhere lacks it:
                     # it is a hypothesis the proof needs, listed in the evidence as an assumption)
